@@ -107,6 +107,11 @@ def run(ctx):
                     continue
                 case = {"op": opname, "a": [model.enc_mag(xa.magnitude), pools.factors_term(fxa)], "b": [model.enc_mag(xb.magnitude), pools.factors_term(fxb)], "n": power}
                 sa, sb = si(xa), si(xb)
+                if opname in ("add", "sub", "eq", "lt") and (sa[2] != sb[2] or not any(mdl.dim_of_unit(xa.unit))):
+                    # no chain of declarations relates the two (e.g. a pure number against an angle
+                    # unit): the oracle has no opinion; dimensionless compounds are C04's known finding
+                    ctx.count("skipped_operands_not_related_by_declarations")
+                    continue
                 ctx.distinct((opname, pools.shape_class(fxa), pools.shape_class(fxb)), xa.unit is not xb.unit)
                 try:
                     if opname == "pow":
